@@ -25,6 +25,18 @@ def get_tag() -> Any:
     return getattr(_tls, "tag", None)
 
 
+class bypass:
+    """Calls made inside are not monitored (used where the harness itself has changed what a
+    correct dispatcher does, e.g. logging switched off by the application)."""
+
+    def __enter__(self) -> None:
+        self._old = getattr(_tls, "inside", False)
+        _tls.inside = True
+
+    def __exit__(self, *a: Any) -> None:
+        _tls.inside = self._old
+
+
 class DispatchMonitor:
     def __init__(self, permute_seed: int | None = None, check_claims: bool = True) -> None:
         import chartparse.track as ct
